@@ -818,6 +818,14 @@ class UnitLib(Lib):
                 and args and isinstance(args[0].idx, Idx):
             base = super().call(it, n, dotted, recv, args, kwargs, env) or TOP
             return base.with_(idx=args[0].idx)
+        if isinstance(f, ast.Name) and f.id in ("min", "max") and \
+                len(args) == 2 and f.id not in env:
+            # comparing two quantities: same rules as adding them
+            chk = self.additive(it, n, args[0], args[1], FLOAT, ast.Add())
+            base = super().call(it, n, dotted, recv, args, kwargs, env)
+            if base is not None:
+                return base.with_(unit=chk.unit, kind=chk.kind)
+            return base
         if isinstance(f, ast.Name) and f.id in ("abs", "min", "max") and args:
             base = super().call(it, n, dotted, recv, args, kwargs, env)
             return base
@@ -1182,15 +1190,29 @@ class ContractObs(Observer):
                              "catalogue position %s is computed from "
                              "mis-typed pixel indices: %s" %
                              (target.attr, t[0][4:]), {"value": val.short()})
-                # remember for exit-liveness check
+                # remember for the exit-liveness check
                 it.__dict__.setdefault("_field_stores", {})[
                     (norm(target.value), target.attr)] = (stmt, val, want)
+                it.__dict__.setdefault("_field_all", {}).setdefault(
+                    (norm(target.value), target.attr), []).append(
+                        (stmt, val))
 
     def finish(self, it):
         """field contracts are checked on the value live at function exit"""
+        fe = getattr(it, "final_env", {}) or {}
         for (obj, attr), (stmt, val, want) in getattr(
                 it, "_field_stores", {}).items():
-            for m in facet_mismatch(want, val):
-                self.add(it, stmt, "store",
-                         "field %s.%s: %s" % (obj, attr, m),
-                         {"value": val.short(), "contract": want.short()})
+            live = fe.get("%s.%s" % (obj, attr), val)
+            ms = facet_mismatch(want, live)
+            if not ms:
+                continue
+            # blame the store(s) whose own value contradicts the contract
+            culprits = [(s2, v2) for s2, v2 in
+                        it._field_all.get((obj, attr), [])
+                        if facet_mismatch(want, v2)] or [(stmt, live)]
+            for s2, v2 in culprits:
+                for m in facet_mismatch(want, v2) or ms:
+                    self.add(it, s2, "store",
+                             "field %s.%s: %s" % (obj, attr, m),
+                             {"value": v2.short(),
+                              "contract": want.short()})
